@@ -513,6 +513,6 @@ def run(tier, seed):
 MANIFEST = {
     "engine": "E over G",
     "technique": "exhaustive enumeration of share-state assignments (best / older / competing same-seqnum / newer fragment / missing / damaged prefix / damaged block / damaged signature field / truncated / damaged private key, plus a duplicated share number) built from captured share files of really published versions, each run through the real MutableChecker, Repairer and MutableCheckAndRepairer with verify in {F,T} and force in {F,T}; verdicts compared with ground truth computed by an independent parser of the files on disk",
-    "text": "Every layout is written to real storage servers; check(verify) then repair(force), or check_and_repair(verify), is executed on a node built from the write-cap. Healthy must hold exactly when one version is present on N distinct undamaged share numbers; an unforced repair must change nothing when a newer unrecoverable version or two recoverable versions of equal seqnum exist; a repair that reports success must leave the former best version's contents readable by a fresh client from N distinct share numbers with no damaged share left. Further: 2-of-4 files on 7 servers with the four shares at every choice of positions of the permuted server list and versions {v3,v2}^4, so that a MODE_READ servermap update can conclude before it has seen every share.",
+    "text": "Every layout is written to real storage servers; check(verify) then repair(force), or check_and_repair(verify), is executed on a node built from the write-cap. Healthy must hold exactly when one version is present on N distinct undamaged share numbers; an unforced repair must change nothing when a newer unrecoverable version or two recoverable versions of equal seqnum exist; a repair that reports success must leave the former best version's contents readable by a fresh client from N distinct share numbers with no damaged share left. Further: 2-of-4 files on 7 servers with the four shares at every choice of positions of the permuted server list and versions {v3,v2}^4, so that a MODE_READ servermap update can conclude before it has seen every share. A 2-of-6 family holds two shares each of v3, a competing v3' and an older v2 (three recoverable versions) over 10 different files.",
     "note": "k=2, N in {3,4}; the competing version is produced by a second writer on a grid restored from the disk snapshot taken before v3; thorough adds schedules with <= 1 deviation on the check and a production-like mode in which CPU-pool results arrive in a later reactor turn.",
 }
